@@ -2,7 +2,7 @@
    models (nothing regenerated from /repo): used to search for a failing input
    when the translation or a proof about the generated code is broken. *)
 From Coq Require Import Extraction ExtrOcamlBasic.
-From LE Require Import Base Strs Config Err ConfigSpec ErrSpec Retry RetrySpec Store Ev World Mon Proto Run.
+From LE Require Import Base Strs Config Err ConfigSpec ErrSpec Retry RetrySpec Store Ev World Mon Mon2 NoProto Run.
 
 Extraction Language OCaml.
 Extraction "extracted.ml"
